@@ -136,12 +136,12 @@ Section Facts.
   Lemma sim_clock_ok w w' : sim w w' -> clock_ok w -> clock_ok w'.
   Proof.
     intros [Hc Hs] Hk f Hf. destruct (Hs f Hf) as (f' & Hf' & Hft & _).
-    destruct (Hk f' Hf') as [H1 H2]. rewrite <- Hft. split; [exact H1 | lia].
+    pose proof (Hk f' Hf') as H2. rewrite <- Hft. lia.
   Qed.
 
   Lemma sim_state_ok w w' st : sim w w' -> state_ok w st -> state_ok w' st.
   Proof.
-    intros [Hc Hs] [H1 H2]. split; [lia|]. intros f Hf Ht.
+    intros [Hc Hs] [He | [H1 H2]]; [left; exact He | right]. split; [lia|]. intros f Hf Ht.
     destruct (Hs f Hf) as (f' & Hf' & Hft & Hfc). rewrite <- Hfc. apply H2; auto. congruence.
   Qed.
 
@@ -289,8 +289,8 @@ Section Facts.
     apply (any_file_write _ _ _ _ Hm) in Hf. apply (any_file_write _ _ _ _ Hm) in Hg.
     destruct Hf as [[Hf1 Hf2] | Hf], Hg as [[Hg1 Hg2] | Hg].
     - congruence.
-    - destruct (Hk g Hg) as [_ H]. lia.
-    - destruct (Hk f Hf) as [_ H]. lia.
+    - pose proof (Hk g Hg) as H. lia.
+    - pose proof (Hk f Hf) as H. lia.
     - apply Hu; auto.
   Qed.
 
@@ -303,13 +303,13 @@ Section Facts.
     intros Hm Hk f Hf. rewrite (write_clock _ _ _ Hm).
     apply (any_file_write _ _ _ _ Hm) in Hf. destruct Hf as [[Hf1 Hf2] | Hf].
     - lia.
-    - destruct (Hk f Hf) as [H1 H2]. lia.
+    - pose proof (Hk f Hf) as H2. lia.
   Qed.
 
   Lemma write_state_ok (w : world) p c st :
     w_mode w = Fine -> state_ok w st -> state_ok (write_file w p c) st.
   Proof.
-    intros Hm [H1 H2]. split; [rewrite (write_clock _ _ _ Hm); lia|].
+    intros Hm [He | [H1 H2]]; [left; exact He | right]. split; [rewrite (write_clock _ _ _ Hm); lia|].
     intros f Hf Ht. apply (any_file_write _ _ _ _ Hm) in Hf. destruct Hf as [[Hf1 Hf2] | Hf].
     - lia.
     - apply H2; auto.
@@ -409,14 +409,38 @@ Section Facts.
   Lemma shortcut_mtime f (assumed : fstate) : shortcut teqb hc f assumed = true -> f_mtime f = fs_mtime assumed.
   Proof. unfold shortcut. intro H. apply andb_true_iff in H as [H _]. lia. Qed.
 
+  Lemma shortcut_nonempty f (assumed : fstate) :
+    shortcut teqb hc f assumed = true -> is_empty_state teqb hc assumed = false.
+  Proof. unfold shortcut. intro H. apply andb_true_iff in H as [_ H]. apply negb_true_iff in H. exact H. Qed.
+
+  (* the two ways of using a sound remembered state: the shortcut accepted some file against it, or it is
+     known not to be the empty state *)
+  Lemma state_ok_nonempty (w : world) (st : fstate) :
+    state_ok w st -> is_empty_state teqb hc st = false ->
+    fs_mtime st <= w_clock w /\
+    forall f, any_file w f -> f_mtime f = fs_mtime st -> fs_t st = hc (f_content f).
+  Proof. intros [He | H] Hne; [congruence | exact H]. Qed.
+
+  Lemma state_ok_shortcut (w : world) (st : fstate) f :
+    state_ok w st -> any_file w f -> shortcut teqb hc f st = true -> fs_t st = hc (f_content f).
+  Proof.
+    intros Hok Hf E. destruct (state_ok_nonempty _ _ Hok (shortcut_nonempty _ _ E)) as [_ H].
+    apply H; [exact Hf | apply shortcut_mtime; exact E].
+  Qed.
+
+  Lemma state_ok_sound_intro (w : world) (st : fstate) :
+    fs_mtime st <= w_clock w ->
+    (forall f, any_file w f -> f_mtime f = fs_mtime st -> fs_t st = hc (f_content f)) -> state_ok w st.
+  Proof. intros H1 H2. right. split; assumption. Qed.
+
   Lemma get_file_ticket_sound (w : world) p assumed t :
     state_ok w assumed -> get_file_ticket teqb hc w p assumed = Some t ->
     exists f, fget w p = Some f /\ t = hc (f_content f).
   Proof.
-    intros [_ Hok] H. unfold get_file_ticket in H. destruct (fget w p) as [f|] eqn:Ef; [|discriminate].
+    intros Hok H. unfold get_file_ticket in H. destruct (fget w p) as [f|] eqn:Ef; [|discriminate].
     exists f. split; [reflexivity|].
     destruct (shortcut teqb hc f assumed) eqn:E; injection H as <-; [|reflexivity].
-    apply shortcut_mtime in E. apply Hok; [eapply any_file_path; exact Ef | exact E].
+    eapply state_ok_shortcut; [exact Hok | eapply any_file_path; exact Ef | exact E].
   Qed.
 
   Lemma back_up_cache_addressed (w : world) p assumed t w' :
@@ -521,9 +545,9 @@ Section Facts.
   Theorem c07_cache_content_addressed w w' : disk_inv w -> steps w w' -> cache_addressed w'.
   Proof. intros Hinv Hs. apply (steps_preserve_inv _ _ Hinv Hs). Qed.
 
-  Theorem c07_init t0 : 0 < t0 -> disk_inv (init_world Fine t0).
+  Theorem c07_init t0 : disk_inv (init_world Fine t0).
   Proof.
-    intro Ht0. unfold init_world.
+    unfold init_world.
     assert (forall f, ~ any_file (mk_world [] no_rdir t0 Fine) f) as Hno.
     { intros f [(p & Hp) | (c & t & Hc & _)]; [cbn in Hp | cbn in Hc]; discriminate. }
     split; [reflexivity|]. split; [|split; [|split]].
@@ -871,22 +895,24 @@ Section Facts.
 
   (* ---------- states observed through the shortcut are sound ---------- *)
 
-  Lemma empty_state_ok (w : world) : clock_ok w -> state_ok w (empty_state hc).
-  Proof.
-    intro Hk. split; [cbn; lia|]. intros f Hf Ht. cbn in Ht. destruct (Hk f Hf) as [H _]. lia.
-  Qed.
+  Lemma is_empty_empty_state : is_empty_state teqb hc (empty_state hc) = true.
+  Proof. unfold is_empty_state, empty_state. cbn. rewrite (proj2 (teqb_spec _ _) eq_refl). reflexivity. Qed.
+
+  (* "nothing remembered" is sound in every world, whatever times its files carry *)
+  Lemma empty_state_ok (w : world) : state_ok w (empty_state hc).
+  Proof. left. apply is_empty_empty_state. Qed.
 
   Lemma get_actual_file_state_ok (w : world) p assumed st :
     disk_inv w -> state_ok w assumed -> get_actual_file_state teqb hc w p assumed = Some st -> state_ok w st.
   Proof.
-    intros (_ & Hu & Hk & _) [_ Hok] H. unfold get_actual_file_state in H.
+    intros (_ & Hu & Hk & _) Hok H. unfold get_actual_file_state in H.
     destruct (fget w p) as [f|] eqn:Ef; [|discriminate]. injection H as <-.
     pose proof (any_file_path _ _ _ Ef) as Hf.
-    split; cbn [fs_mtime fs_t].
+    right. split; cbn [fs_mtime fs_t].
     - apply (Hk f Hf).
     - intros g Hg Ht. rewrite (Hu g f Hg Hf Ht).
       destruct (shortcut teqb hc f assumed) eqn:E; [|reflexivity].
-      apply shortcut_mtime in E. apply Hok; [exact Hf | exact E].
+      eapply state_ok_shortcut; eauto.
   Qed.
 
   Lemma update_blob_ok b : forall (w : world) b',
@@ -903,12 +929,12 @@ Section Facts.
   Qed.
 
   Lemma forget_replaced_ok b : forall (w : world) ress,
-    clock_ok w -> blob_ok w b -> blob_ok w (forget_replaced hc b ress).
+    blob_ok w b -> blob_ok w (forget_replaced hc b ress).
   Proof.
-    induction b as [|[p st] rest IH]; intros w ress Hk Hb; cbn [forget_replaced]; [exact Hb|].
+    induction b as [|[p st] rest IH]; intros w ress Hb; cbn [forget_replaced]; [exact Hb|].
     destruct ress as [|r rrest]; [exact Hb|]. apply blob_ok_cons in Hb as [Hst Hrest].
     apply blob_ok_cons_intro; [|apply IH; auto].
-    destruct r; auto. apply empty_state_ok. exact Hk.
+    destruct r; auto. apply empty_state_ok.
   Qed.
 
   (* ---------- one rule thread ---------- *)
@@ -978,15 +1004,15 @@ Section Facts.
   Qed.
 
   Lemma take_blob_ok paths : forall (w : world) t b t',
-    clock_ok w -> tbl_ok w t -> take_blob T hc t paths = (b, t') -> blob_ok w b /\ tbl_ok w t'.
+    tbl_ok w t -> take_blob T hc t paths = (b, t') -> blob_ok w b /\ tbl_ok w t'.
   Proof.
-    induction paths as [|p rest IH]; intros w t b t' Hk Ht; cbn [take_blob].
+    induction paths as [|p rest IH]; intros w t b t' Ht; cbn [take_blob].
     - intro H. injection H as <- <-. split; [intros q s []| exact Ht].
     - destruct (take_blob T hc (aremove bytes_eqb t p) rest) as [b2 t2] eqn:E2.
       intro H. injection H as <- <-.
-      destruct (IH w _ _ _ Hk (tbl_ok_aremove _ _ p Ht) E2) as [Hb2 Ht2].
+      destruct (IH w _ _ _ (tbl_ok_aremove _ _ p Ht) E2) as [Hb2 Ht2].
       split; [|exact Ht2]. apply blob_ok_cons_intro; [|exact Hb2].
-      destruct (alookup bytes_eqb t p) as [s|] eqn:El; [eapply Ht; eauto | apply empty_state_ok; exact Hk].
+      destruct (alookup bytes_eqb t p) as [s|] eqn:El; [eapply Ht; eauto | apply empty_state_ok].
   Qed.
 
   (* take_blob / take_blobs only remove entries: what is left are entries of the table *)
@@ -1055,7 +1081,7 @@ Section Facts.
     intros Hinv0 (Hs & Ht & Hr). pose proof (steps_preserve_inv _ _ Hinv0 Hs) as Hinv.
     unfold run_leaf. destruct (take_blob T hc (rs_table T st) [leaf]) as [b t'] eqn:Etb.
     assert (clock_ok (rs_world T st)) as Hk by apply Hinv.
-    destruct (take_blob_ok _ _ _ _ _ Hk Ht Etb) as [Hb Ht'].
+    destruct (take_blob_ok _ _ _ _ _ Ht Etb) as [Hb Ht'].
     unfold handle_leaf. destruct (current_tickets teqb hc (rs_world T st) b) as [ts|p]; cbn.
     - split; [exact Hs|]. split; [exact Ht'|]. apply results_ok_app; [exact Hr|].
       apply results_ok_one_ok. exact Hb.
@@ -1075,7 +1101,7 @@ Section Facts.
     intros Hinv0 (Hs & Ht & Hr). pose proof (steps_preserve_inv _ _ Hinv0 Hs) as Hinv.
     unfold run_node. destruct (take_blob T hc (rs_table T st) (n_targets n)) as [b t'] eqn:Etb.
     assert (clock_ok (rs_world T st)) as Hk by apply Hinv.
-    destruct (take_blob_ok _ _ _ _ _ Hk Ht Etb) as [Hb Ht'].
+    destruct (take_blob_ok _ _ _ _ _ Ht Etb) as [Hb Ht'].
     destruct (read_history T teqb hr (rs_world T st) (n_rule n)) as [h|]; [|discriminate].
     destruct (all_some (map (received T (rs_leaf_sent T st) (rs_node_sent T st)) (n_source_indices n)))
       as [tickets|].
@@ -1207,7 +1233,7 @@ Section Facts.
     - intro H. injection H as <- _. apply steps_refl.
     - destruct (take_blob T hc t (n_targets n)) as [b t'] eqn:Etb.
       assert (clock_ok w) as Hk by apply Hinv.
-      destruct (take_blob_ok _ _ _ _ _ Hk Ht Etb) as [Hb Ht'].
+      destruct (take_blob_ok _ _ _ _ _ Ht Etb) as [Hb Ht'].
       destruct (clean_targets teqb hc w b) as [w1|e] eqn:Ec.
       + pose proof (clean_targets_steps _ _ _ Hinv Hb Ec) as Hs1. intro H.
         eapply steps_trans; [exact Hs1|]. eapply IH; [| |exact H].
@@ -1311,17 +1337,17 @@ Section Facts.
   Qed.
 
   Theorem reach_inv t0 (ops : list (op T)) :
-    0 < t0 -> Forall safe_op ops ->
+    Forall safe_op ops ->
     disk_inv (fold_left (fun w o => fst (apply_op teqb hc hl hr w o)) ops (init_world Fine t0)).
   Proof.
-    intros Ht0 Hsafe. pose proof (c07_init t0 Ht0) as Hinv.
+    intros Hsafe. pose proof (c07_init t0) as Hinv.
     eapply steps_preserve_inv; [exact Hinv|]. apply history_steps; auto.
   Qed.
 
   Theorem c07_every_history t0 (ops : list (op T)) :
-    0 < t0 -> Forall safe_op ops ->
+    Forall safe_op ops ->
     cache_addressed (fold_left (fun w o => fst (apply_op teqb hc hl hr w o)) ops (init_world Fine t0)).
-  Proof. intros Ht0 Hsafe. apply (reach_inv t0 ops Ht0 Hsafe). Qed.
+  Proof. intros Hsafe. apply (reach_inv t0 ops Hsafe). Qed.
 
 End Facts.
 
@@ -1424,13 +1450,14 @@ Theorem own_step_is_step_refuted :
        disk_inv sym_eqb SContent w -> own_step sym_eqb SContent w w' -> step sym_eqb SContent w w').
 Proof.
   intro H.
-  assert (disk_inv sym_eqb SContent ois_w) as Hinv by (apply InvProofs.c07_init; reflexivity).
+  assert (disk_inv sym_eqb SContent ois_w) as Hinv by (apply InvProofs.c07_init).
   specialize (H ois_w (write_table sym ois_w ois_tbl) Hinv (OWriteTable _ _ _ _ _)).
   inversion H as [w p a t w' Hok Hg Hb | w t p w' Hr | w p c | w p | w p x | w p q | w tbl0 Htbl | w hr r h
                  | w w' tbl0 Hi | w | w rd' Hsh].
   - unfold back_up in Hb. cbn in Hb. discriminate.
   - unfold restore in Hr. cbn in Hr. discriminate.
-  - destruct (Htbl [1] _ eq_refl) as [Hle _]. cbn in Hle. vm_compute in Hle. apply Hle. reflexivity.
+  - destruct (Htbl [1] _ eq_refl) as [He | [Hle _]]; [vm_compute in He; discriminate|].
+    cbn in Hle. vm_compute in Hle. apply Hle. reflexivity.
   - cbn in Hi. discriminate.
   - destruct Hsh as (_ & Ht & _). specialize (Ht ois_tbl eq_refl). cbn in Ht. discriminate.
 Qed.
@@ -1455,7 +1482,7 @@ Lemma c08_w_inv : disk_inv sym_eqb SContent c08_w.
 Proof.
   split; [reflexivity|]. split; [|split; [|split]].
   - intros f g Hf Hg _. rewrite (c08_w_files f Hf), (c08_w_files g Hg). reflexivity.
-  - intros f Hf. rewrite (c08_w_files f Hf). split; reflexivity || (intro H; discriminate).
+  - intros f Hf. rewrite (c08_w_files f Hf). intro H; discriminate.
   - intros c t f Hc Hl. cbn in Hc. injection Hc as <-. cbn [alookup] in Hl.
     destruct (sym_eqb t (SContent [1])) eqn:E; [|discriminate].
     injection Hl as <-. apply sym_eqb_spec in E. exact E.
@@ -1534,7 +1561,7 @@ Section Results.
     disk_inv teqb hc w -> steps teqb hc w w' -> cache_addressed teqb hc w'.
   Proof. exact (InvProofs.c07_cache_content_addressed T teqb hc teqb_spec). Qed.
 
-  Theorem c07_init : forall t0, 0 < t0 -> disk_inv teqb hc (init_world Fine t0).
+  Theorem c07_init : forall t0, disk_inv teqb hc (init_world Fine t0).
   Proof. exact (InvProofs.c07_init T teqb hc). Qed.
 
   (* ---- R6 (hc injective is needed here only) ---- *)
@@ -1634,12 +1661,12 @@ Section Results.
 
   (* ---- R8 ---- *)
   Theorem reach_inv : forall t0 (ops : list (op T)),
-    0 < t0 -> Forall (safe_op T) ops ->
+    Forall (safe_op T) ops ->
     disk_inv teqb hc (fold_left (fun w o => fst (apply_op teqb hc hl hr w o)) ops (init_world Fine t0)).
   Proof. exact (InvProofs.reach_inv T teqb hc teqb_spec hl hr). Qed.
 
   Theorem c07_every_history : forall t0 (ops : list (op T)),
-    0 < t0 -> Forall (safe_op T) ops ->
+    Forall (safe_op T) ops ->
     cache_addressed teqb hc (fold_left (fun w o => fst (apply_op teqb hc hl hr w o)) ops (init_world Fine t0)).
   Proof. exact (InvProofs.c07_every_history T teqb hc teqb_spec hl hr). Qed.
 End Results.
@@ -1650,7 +1677,7 @@ Theorem c07_cache_content_addressed_sym : forall w w' : world sym,
   disk_inv sym_eqb SContent w -> steps sym_eqb SContent w w' -> cache_addressed sym_eqb SContent w'.
 Proof. exact (c07_cache_content_addressed sym sym_eqb SContent sym_eqb_spec). Qed.
 
-Theorem c07_init_sym : forall t0, 0 < t0 -> disk_inv sym_eqb SContent (init_world Fine t0).
+Theorem c07_init_sym : forall t0, disk_inv sym_eqb SContent (init_world Fine t0).
 Proof. exact (c07_init sym sym_eqb SContent). Qed.
 
 Theorem c08_own_step_keeps_content_sym : forall paths (w w' : world sym) c,
@@ -1675,13 +1702,13 @@ Theorem clean_steps_sym : forall (w : world sym) rp goal,
 Proof. exact (clean_steps sym sym_eqb SContent sym_eqb_spec). Qed.
 
 Theorem reach_inv_sym : forall t0 (ops : list (op sym)),
-  0 < t0 -> Forall (safe_op sym) ops ->
+  Forall (safe_op sym) ops ->
   disk_inv sym_eqb SContent
     (fold_left (fun w o => fst (apply_op sym_eqb SContent SList SRule w o)) ops (init_world Fine t0)).
 Proof. exact (reach_inv sym sym_eqb SContent sym_eqb_spec SList SRule). Qed.
 
 Theorem c07_every_history_sym : forall t0 (ops : list (op sym)),
-  0 < t0 -> Forall (safe_op sym) ops ->
+  Forall (safe_op sym) ops ->
   cache_addressed sym_eqb SContent
     (fold_left (fun w o => fst (apply_op sym_eqb SContent SList SRule w o)) ops (init_world Fine t0)).
 Proof. exact (c07_every_history sym sym_eqb SContent sym_eqb_spec SList SRule). Qed.
